@@ -16,6 +16,7 @@ import (
 	"path/filepath"
 	"sort"
 	"strings"
+	"syscall"
 
 	"github.com/snapcore/snapd/asserts"
 	"github.com/snapcore/snapd/boot"
@@ -287,7 +288,11 @@ type device struct {
 	cmdline string // file standing in for /proc/cmdline
 	initial *pstate
 
-	vol volatile
+	cacheKey, cacheVal string
+	cacheOK            bool
+
+	vol     volatile
+	tracing bool // keep per-attempt state snapshots for the witness (second pass of a violating case)
 
 	rebootRequested int // set by the MockInitramfsReboot callback
 }
@@ -353,70 +358,111 @@ func (d *device) activate() {
 	}
 }
 
+// snapshot captures the persistent state: the bootloader object plus the
+// mutable files in <root>/var/lib/snapd. The only file the code under test
+// writes there is the modeenv (checked by auditFiles after every case); its
+// content is cached by (inode, size, mtime) - snapd replaces it by rename, so a
+// new inode means new content - to keep the number of syscalls down.
 func (d *device) snapshot() *pstate {
 	p := &pstate{bl: d.bl.st.clone(), files: map[string]string{}}
-	filepath.Walk(d.root, func(path string, info os.FileInfo, err error) error {
-		if err != nil {
-			return nil
-		}
-		if info.IsDir() {
-			if info.Name() == "snaps" {
-				return filepath.SkipDir // static, never written by the code under test
-			}
-			return nil
-		}
+	if d.cfg == cfgUC16 {
+		return p
+	}
+	path := filepath.Join(d.root, "var/lib/snapd/modeenv")
+	fi, err := os.Stat(path)
+	if err != nil {
+		d.cacheOK = false
+		return p // no modeenv: visible to the code under test as a read error
+	}
+	key := statKey(fi)
+	if !d.cacheOK || key != d.cacheKey {
 		b, err := os.ReadFile(path)
-		if err == nil {
-			rel, _ := filepath.Rel(d.root, path)
-			p.files[rel] = string(b)
+		if err != nil {
+			panic(err)
 		}
-		return nil
-	})
+		d.cacheKey, d.cacheVal, d.cacheOK = key, string(b), true
+	}
+	p.files["modeenv"] = d.cacheVal
 	return p
+}
+
+func statKey(fi os.FileInfo) string {
+	ino := uint64(0)
+	if st, ok := fi.Sys().(*syscall.Stat_t); ok {
+		ino = st.Ino
+	}
+	return fmt.Sprintf("%d/%d/%d", ino, fi.Size(), fi.ModTime().UnixNano())
 }
 
 func (d *device) restore(p *pstate) {
 	d.bl.st = p.bl.clone()
-	cur := d.snapshot()
-	for rel := range cur.files {
-		if _, ok := p.files[rel]; !ok {
-			os.Remove(filepath.Join(d.root, rel))
-		}
+	if d.cfg == cfgUC16 {
+		return
 	}
-	for rel, content := range p.files {
-		if cur.files[rel] != content {
-			path := filepath.Join(d.root, rel)
-			os.MkdirAll(filepath.Dir(path), 0755)
-			if err := os.WriteFile(path, []byte(content), 0644); err != nil {
-				panic(err)
-			}
-		}
+	path := filepath.Join(d.root, "var/lib/snapd/modeenv")
+	want, ok := p.files["modeenv"]
+	if !ok {
+		os.Remove(path)
+		d.cacheOK = false
+		return
 	}
+	if cur := d.snapshot(); cur.files["modeenv"] == want && d.cacheOK {
+		return
+	}
+	// replace by rename as well, so that the inode changes
+	tmp := path + ".verif-restore"
+	if err := os.WriteFile(tmp, []byte(want), 0644); err != nil {
+		panic(err)
+	}
+	if err := os.Rename(tmp, path); err != nil {
+		panic(err)
+	}
+	d.cacheOK = false
 }
 
-func (d *device) modeenvText() string {
-	b, err := os.ReadFile(dirs.SnapModeenvFileUnder(d.root))
-	if err != nil {
-		return ""
-	}
-	var keep []string
-	for _, ln := range strings.Split(string(b), "\n") {
-		for _, k := range []string{"base=", "try_base=", "base_status=", "current_kernels="} {
-			if strings.HasPrefix(ln, k) {
-				keep = append(keep, ln)
-			}
+// auditFiles checks the assumption behind snapshot(): nothing but the modeenv
+// appears or changes under the device root.
+func (d *device) auditFiles() error {
+	var bad []string
+	filepath.Walk(d.root, func(path string, info os.FileInfo, err error) error {
+		if err != nil {
+			return nil
 		}
+		rel, _ := filepath.Rel(d.root, path)
+		if info.IsDir() {
+			if rel == "var/lib/snapd/snaps" {
+				return filepath.SkipDir
+			}
+			return nil
+		}
+		if rel != "var/lib/snapd/modeenv" {
+			bad = append(bad, rel)
+		}
+		return nil
+	})
+	if len(bad) > 0 {
+		return fmt.Errorf("files outside the harness' persistent-state model were written: %v", bad)
 	}
-	return strings.Join(keep, " ")
+	return nil
 }
 
-func (d *device) stateText() string {
-	s := d.bl.st.String()
-	if d.cfg != cfgUC16 {
-		s += " | modeenv: " + d.modeenvText()
+func (p *pstate) text() string {
+	s := p.bl.String()
+	if m, ok := p.files["modeenv"]; ok {
+		var keep []string
+		for _, ln := range strings.Split(m, "\n") {
+			for _, k := range []string{"base=", "try_base=", "base_status=", "current_kernels="} {
+				if strings.HasPrefix(ln, k) {
+					keep = append(keep, ln)
+				}
+			}
+		}
+		s += " | modeenv: " + strings.Join(keep, " ")
 	}
 	return s
 }
+
+func (p *pstate) String() string { return p.text() }
 
 // ---- firmware models --------------------------------------------------------------
 
@@ -503,7 +549,7 @@ type bootObs struct {
 	MountedK   string `json:"mounted_kernel,omitempty"`
 	Outcome    string `json:"outcome"` // userspace | failed@<stage> | firmware-fallback | initramfs-reboot | stopped
 	Err        string `json:"err,omitempty"`
-	StateAfter string `json:"state_after"`
+	PS         *pstate `json:"-"` // persistent state after the attempt
 }
 
 const (
@@ -515,13 +561,17 @@ const (
 
 // attempt runs firmware + (UC20) the real initramfs steps once. failAt < 0
 // means the attempt is allowed to reach userspace.
-func (d *device) attempt(n int, failAt int) bootObs {
-	o := bootObs{Attempt: n}
+func (d *device) attempt(n int, failAt int) (o bootObs) {
+	o = bootObs{Attempt: n}
 	d.vol.Up, d.vol.Marked = false, false
 	d.vol.Cur, d.vol.CurTry = [2]int{}, [2]bool{}
 	fw := d.firmware()
 	d.vol.Tryboot = false // one-shot
-	defer func() { o.StateAfter = d.stateText() }()
+	defer func() {
+		if d.tracing {
+			o.PS = d.snapshot()
+		}
+	}()
 	if fw.fallback {
 		o.Outcome = "firmware-fallback"
 		return o
